@@ -307,3 +307,1351 @@ Proof.
     + intros j b. cbn [is_prefix]. rewrite Nat.eqb_sym. reflexivity.
     + lia.
 Qed.
+
+(* ============================================================================================== *)
+(* D. downward queries                                                                              *)
+
+Definition pre_go (p : pos) :=
+  fix go (i : nat) (l : list tree) : list (pos * tree) :=
+    match l with
+    | [] => []
+    | k :: r => preorder_at (p ++ [i]) k ++ go (S i) r
+    end.
+
+Lemma pre_go_cons : forall p i k r, pre_go p i (k :: r) = preorder_at (p ++ [i]) k ++ pre_go p (S i) r.
+Proof. reflexivity. Qed.
+
+Lemma preorder_at_unfold : forall p g n a ks,
+  preorder_at p (T g n a ks) = (p, T g n a ks) :: pre_go p 0 ks.
+Proof. reflexivity. Qed.
+
+Definition sub_or (s : tree) (q : pos) : tree :=
+  match subtree_at s q with Some u => u | None => s end.
+
+Lemma preorder_at_spec : forall s p,
+  preorder_at p s = map (fun q => (p ++ q, sub_or s q)) (positions s).
+Proof.
+  induction s as [g n a ks IH] using tree_ind'. intro p.
+  rewrite preorder_at_unfold, positions_eq. cbn [map]. rewrite app_nil_r. unfold sub_or at 1. cbn [subtree_at].
+  f_equal.
+  assert (Hgo : forall l o, (forall j, nth_error ks (o + j) = nth_error l j) ->
+                Forall (fun k => forall p, preorder_at p k = map (fun q => (p ++ q, sub_or k q)) (positions k)) l ->
+                pre_go p o l = map (fun q => (p ++ q, sub_or (T g n a ks) q)) (pos_go o l)).
+  { induction l as [|k l IHl]; intros o Hnth HF; [reflexivity|].
+    inversion HF as [|? ? Hk Hl]; subst. rewrite pre_go_cons. cbn [pos_go]. rewrite map_app, map_map.
+    rewrite Hk. rewrite IHl.
+    - f_equal. apply map_ext_in. intros q Hq. rewrite <- app_assoc. cbn [app]. f_equal.
+      unfold sub_or. cbn [subtree_at tkids]. specialize (Hnth 0). rewrite Nat.add_0_r in Hnth. cbn in Hnth.
+      rewrite Hnth. apply In_positions in Hq. destruct Hq as [u Hu]. rewrite Hu. reflexivity.
+    - intro j. specialize (Hnth (S j)). rewrite Nat.add_succ_r in Hnth. exact Hnth.
+    - exact Hl. }
+  apply Hgo; [intro j; reflexivity | exact IH].
+Qed.
+
+Lemma node_descendants_eq : forall t p s, subtree_at t p = Some s ->
+  node_descendants t p = map (app p) (tl (positions s)).
+Proof.
+  intros t p s Hs. unfold node_descendants, preorder_iter. rewrite Hs, preorder_at_spec.
+  rewrite filter_map_comm, map_map. cbn [fst].
+  rewrite (positions_hd s) at 1. cbn [filter]. rewrite app_nil_r, pos_eqb_refl. cbn [negb].
+  rewrite filter_all; [reflexivity|].
+  intros q Hq. apply positions_tl_nonnil in Hq. apply negb_true_iff. apply pos_eqb_false.
+  intro E. apply Hq. rewrite <- (app_nil_r p) in E at 2. apply app_inv_head in E. exact E.
+Qed.
+
+Lemma node_leaves_eq : forall t p s, subtree_at t p = Some s ->
+  node_leaves t p = map (app p) (filter (fun q => sub_is_leaf (sub_or s q)) (positions s)).
+Proof.
+  intros t p s Hs. unfold node_leaves, preorder_iter. rewrite Hs, preorder_at_spec.
+  rewrite filter_map_comm, map_map. reflexivity.
+Qed.
+
+Lemma node_is_leaf_eq : forall t p s, subtree_at t p = Some s -> node_is_leaf t p = sub_is_leaf s.
+Proof.
+  intros t p s Hs. unfold node_is_leaf, node_children, node_arity, sub_is_leaf. rewrite Hs, map_length, seq_length.
+  reflexivity.
+Qed.
+
+(* max_depth is the number of nodes on the longest route from the root of the WHOLE tree *)
+Lemma node_max_depth_eq : forall t p, node_max_depth t p = spec_max_depth t.
+Proof.
+  intros t p. unfold node_max_depth, spec_max_depth. rewrite node_root_eq.
+  rewrite (node_descendants_eq t [] t) by reflexivity.
+  rewrite (positions_hd t) at 2. cbn [map]. rewrite node_depth_eq. cbn [length].
+  f_equal. f_equal. rewrite map_map. apply map_ext. intro q. apply node_depth_eq.
+Qed.
+
+(* ============================================================================================== *)
+(* E. siblings                                                                                      *)
+
+Definition child_of (q : pos) (j : nat) : pos := q ++ [j].
+
+Lemma node_children_eq : forall t q, node_children t q = map (child_of q) (seq 0 (node_arity t q)).
+Proof. reflexivity. Qed.
+
+Lemma child_of_inj : forall q i j, child_of q i = child_of q j -> i = j.
+Proof. unfold child_of. intros q i j H. apply app_inv_head in H. congruence. Qed.
+
+Lemma pos_eqb_child : forall q i j, pos_eqb (child_of q j) (child_of q i) = Nat.eqb j i.
+Proof.
+  intros q i j. destruct (Nat.eqb j i) eqn:E.
+  - apply Nat.eqb_eq in E. subst. apply pos_eqb_refl.
+  - apply pos_eqb_false. intro H. apply child_of_inj in H. apply Nat.eqb_neq in E. contradiction.
+Qed.
+
+Lemma valid_child : forall t q i, valid t (q ++ [i]) = true <-> i < node_arity t q.
+Proof.
+  intros t q i. unfold valid, node_arity. rewrite subtree_at_app. destruct (subtree_at t q) as [s|].
+  - cbn [subtree_at]. destruct (nth_error (tkids s) i) eqn:E.
+    + split; [|reflexivity]. intros _. apply nth_error_Some. congruence.
+    + split; [discriminate|]. intro H. apply nth_error_None in E. lia.
+  - split; [discriminate | lia].
+Qed.
+
+Lemma node_siblings_eq : forall t q i,
+  node_siblings t (q ++ [i]) = map (child_of q) (filter (fun j => negb (Nat.eqb j i)) (seq 0 (node_arity t q))).
+Proof.
+  intros t q i. unfold node_siblings. rewrite node_parent_app, node_children_eq, filter_map_comm.
+  f_equal. apply filter_ext. intro j. fold (child_of q i). rewrite pos_eqb_child. reflexivity.
+Qed.
+
+Lemma node_siblings_root : forall t, node_siblings t [] = [].
+Proof. reflexivity. Qed.
+
+Lemma index_pos_children : forall q i n a, a <= i -> i < a + n ->
+  index_pos (child_of q i) (map (child_of q) (seq a n)) = i - a.
+Proof.
+  intros q i n. induction n as [|n IH]; intros a Ha Hi; [lia|].
+  cbn [seq map index_pos]. rewrite pos_eqb_child. destruct (Nat.eqb i a) eqn:E.
+  - apply Nat.eqb_eq in E. lia.
+  - apply Nat.eqb_neq in E. rewrite IH by lia. lia.
+Qed.
+
+Lemma nth_error_children : forall q n k, k < n -> nth_error (map (child_of q) (seq 0 n)) k = Some (child_of q k).
+Proof.
+  intros q n k Hk. rewrite nth_error_map. rewrite nth_error_nth' with (d := 0) by (rewrite seq_length; exact Hk).
+  rewrite seq_nth by exact Hk. reflexivity.
+Qed.
+
+Lemma node_left_sibling_eq : forall t q i, valid t (q ++ [i]) = true ->
+  node_left_sibling t (q ++ [i]) = match i with 0 => None | S j => Some (q ++ [j]) end.
+Proof.
+  intros t q i Hv. apply valid_child in Hv. unfold node_left_sibling. rewrite node_parent_app, node_children_eq.
+  fold (child_of q i). rewrite index_pos_children by lia. rewrite Nat.sub_0_r.
+  destruct i as [|j]; [reflexivity|]. cbn [Nat.eqb]. rewrite nth_error_children by lia.
+  replace (S j - 1) with j by lia. reflexivity.
+Qed.
+
+Lemma node_right_sibling_eq : forall t q i, valid t (q ++ [i]) = true ->
+  node_right_sibling t (q ++ [i]) = if valid t (q ++ [S i]) then Some (q ++ [S i]) else None.
+Proof.
+  intros t q i Hv. apply valid_child in Hv. unfold node_right_sibling. rewrite node_parent_app, node_children_eq.
+  fold (child_of q i). rewrite index_pos_children by lia. rewrite Nat.sub_0_r, map_length, seq_length.
+  destruct (Nat.ltb (i + 1) (node_arity t q)) eqn:E.
+  - apply Nat.ltb_lt in E. rewrite nth_error_children by lia.
+    replace (valid t (q ++ [S i])) with true by (symmetry; apply valid_child; lia).
+    replace (i + 1) with (S i) by lia. reflexivity.
+  - apply Nat.ltb_ge in E. destruct (valid t (q ++ [S i])) eqn:V; [|reflexivity].
+    apply valid_child in V. lia.
+Qed.
+
+Lemma node_left_sibling_root : forall t, node_left_sibling t [] = None.
+Proof. reflexivity. Qed.
+Lemma node_right_sibling_root : forall t, node_right_sibling t [] = None.
+Proof. reflexivity. Qed.
+
+(* ============================================================================================== *)
+(* F. diameter                                                                                      *)
+
+(* F.1  the sum of the two largest entries *)
+
+Definition top2 (l : list nat) : nat := list_sum (nlargest 2 l).
+
+(* x and y are entries of l at two different places (x first) *)
+Inductive two_of : list nat -> nat -> nat -> Prop :=
+| two_here : forall x y r, In y r -> two_of (x :: r) x y
+| two_there : forall z r x y, two_of r x y -> two_of (z :: r) x y.
+
+Lemma two_of_In : forall l x y, two_of l x y -> In x l /\ In y l.
+Proof.
+  intros l x y H. induction H as [x y r Hy | z r x y H [IH1 IH2]].
+  - split; [left; reflexivity | right; exact Hy].
+  - split; right; assumption.
+Qed.
+
+Lemma two_of_nth : forall l i j x y, i < j -> nth_error l i = Some x -> nth_error l j = Some y -> two_of l x y.
+Proof.
+  induction l as [|z l IH]; intros i j x y Hij Hi Hj.
+  - destruct i; discriminate.
+  - destruct j as [|j]; [lia|]. cbn [nth_error] in Hj. destruct i as [|i].
+    + cbn in Hi. inversion Hi; subst. apply two_here. eapply nth_error_In; eauto.
+    + cbn [nth_error] in Hi. apply two_there. apply (IH i j); [lia | assumption | assumption].
+Qed.
+
+Lemma nth_two_of : forall l x y, two_of l x y ->
+  exists i j, i < j /\ nth_error l i = Some x /\ nth_error l j = Some y.
+Proof.
+  intros l x y H. induction H as [x y r Hy | z r x y H [i [j [Hij [Hi Hj]]]]].
+  - apply In_nth_error in Hy. destruct Hy as [j Hj]. exists 0, (S j). split; [lia|]. split; [reflexivity | exact Hj].
+  - exists (S i), (S j). split; [lia|]. split; assumption.
+Qed.
+
+Lemma firstn2_insert : forall x s, firstn 2 (insert_desc x s) = firstn 2 (insert_desc x (firstn 2 s)).
+Proof.
+  intros x [|a [|b r]]; [reflexivity | reflexivity |].
+  cbn [firstn insert_desc]. destruct (Nat.leb a x); [reflexivity|].
+  cbn [firstn]. destruct (Nat.leb b x); reflexivity.
+Qed.
+
+Definition top2_inv (l f : list nat) : Prop :=
+  match f with
+  | [] => l = []
+  | [a] => l = [a]
+  | [a; b] => b <= a /\ (forall x, In x l -> x <= a) /\ (forall x y, two_of l x y -> x + y <= a + b)
+              /\ (two_of l a b \/ two_of l b a)
+  | _ => False
+  end.
+
+Lemma top2_inv_sort : forall l, top2_inv l (firstn 2 (sort_desc l)).
+Proof.
+  induction l as [|x l IH]; [reflexivity|].
+  cbn [sort_desc fold_right]. fold (sort_desc l). rewrite firstn2_insert.
+  destruct (firstn 2 (sort_desc l)) as [|a [|b [|c r]]]; cbn [top2_inv] in IH.
+  - subst l. reflexivity.
+  - subst l. cbn [insert_desc]. destruct (Nat.leb a x) eqn:E; cbn [firstn top2_inv].
+    + apply Nat.leb_le in E. split; [exact E|]. split.
+      * intros u [Hu|[Hu|[]]]; lia.
+      * split.
+        -- intros u v H. inversion H as [? ? ? Hv | ? ? ? ? H']; subst.
+           ++ destruct Hv as [Hv|[]]. lia.
+           ++ inversion H' as [? ? ? Hv | ? ? ? ? H'']; subst; [destruct Hv | inversion H''].
+        -- left. apply two_here. left. reflexivity.
+    + apply Nat.leb_gt in E. split; [lia|]. split.
+      * intros u [Hu|[Hu|[]]]; lia.
+      * split.
+        -- intros u v H. inversion H as [? ? ? Hv | ? ? ? ? H']; subst.
+           ++ destruct Hv as [Hv|[]]. lia.
+           ++ inversion H' as [? ? ? Hv | ? ? ? ? H'']; subst; [destruct Hv | inversion H''].
+        -- right. apply two_here. left. reflexivity.
+  - destruct IH as [Hba [Hmax [Hpair Hatt]]].
+    assert (Ha : In a l) by (destruct Hatt as [H|H]; apply two_of_In in H; tauto).
+    assert (Hb : In b l) by (destruct Hatt as [H|H]; apply two_of_In in H; tauto).
+    cbn [insert_desc]. destruct (Nat.leb a x) eqn:E; cbn [firstn top2_inv].
+    + apply Nat.leb_le in E. split; [exact E|]. split.
+      * intros u [Hu|Hu]; [lia|]. apply Hmax in Hu. lia.
+      * split.
+        -- intros u v H. inversion H as [? ? ? Hv | ? ? ? ? H']; subst.
+           ++ apply Hmax in Hv. lia.
+           ++ apply Hpair in H'. lia.
+        -- left. apply two_here. exact Ha.
+    + apply Nat.leb_gt in E. destruct (Nat.leb b x) eqn:E2; cbn [firstn top2_inv].
+      * apply Nat.leb_le in E2. split; [lia|]. split.
+        -- intros u [Hu|Hu]; [lia|]. apply Hmax in Hu. lia.
+        -- split.
+           ++ intros u v H. inversion H as [? ? ? Hv | ? ? ? ? H']; subst.
+              ** apply Hmax in Hv. lia.
+              ** apply Hpair in H'. lia.
+           ++ right. apply two_here. exact Ha.
+      * apply Nat.leb_gt in E2. split; [lia|]. split.
+        -- intros u [Hu|Hu]; [lia|]. apply Hmax in Hu. lia.
+        -- split.
+           ++ intros u v H. inversion H as [? ? ? Hv | ? ? ? ? H']; subst.
+              ** apply Hmax in Hv. lia.
+              ** apply Hpair in H'. lia.
+           ++ destruct Hatt as [H|H]; [left | right]; apply two_there; exact H.
+  - contradiction.
+Qed.
+
+Lemma top2_single : forall l x, In x l -> x <= top2 l.
+Proof.
+  intros l x Hx. unfold top2, nlargest. pose proof (top2_inv_sort l) as H.
+  destruct (firstn 2 (sort_desc l)) as [|a [|b [|c r]]]; cbn [top2_inv] in H.
+  - subst. destruct Hx.
+  - subst. destruct Hx as [Hx|[]]. subst. cbn. lia.
+  - destruct H as [_ [Hmax _]]. apply Hmax in Hx. cbn. lia.
+  - contradiction.
+Qed.
+
+Lemma top2_pair : forall l x y, two_of l x y -> x + y <= top2 l.
+Proof.
+  intros l x y Hxy. unfold top2, nlargest. pose proof (top2_inv_sort l) as H.
+  destruct (firstn 2 (sort_desc l)) as [|a [|b [|c r]]]; cbn [top2_inv] in H.
+  - subst. inversion Hxy.
+  - subst. inversion Hxy as [? ? ? Hv | ? ? ? ? H']; subst; [destruct Hv | inversion H'].
+  - destruct H as [_ [_ [Hpair _]]]. apply Hpair in Hxy. cbn. lia.
+  - contradiction.
+Qed.
+
+Lemma top2_attained : forall l,
+  (l = [] /\ top2 l = 0) \/ (exists a, l = [a] /\ top2 l = a) \/ (exists x y, two_of l x y /\ top2 l = x + y).
+Proof.
+  intro l. unfold top2, nlargest. pose proof (top2_inv_sort l) as H.
+  destruct (firstn 2 (sort_desc l)) as [|a [|b [|c r]]]; cbn [top2_inv] in H.
+  - left. split; [exact H | reflexivity].
+  - right. left. exists a. split; [exact H | cbn; lia].
+  - right. right. destruct H as [_ [_ [_ [H|H]]]].
+    + exists a, b. split; [exact H | cbn; lia].
+    + exists b, a. split; [exact H | cbn; lia].
+  - contradiction.
+Qed.
+
+(* F.2  maxima over the children *)
+
+Definition fmax {A} (f : A -> nat) (l : list A) : nat := fold_right (fun k a => Nat.max (f k) a) 0 l.
+
+Lemma fmax_ge : forall {A} (f : A -> nat) l k, In k l -> f k <= fmax f l.
+Proof.
+  intros A f l k. induction l as [|x l IH]; intro H; [destruct H|]. cbn [fmax fold_right]. fold (fmax f l).
+  destruct H as [H|H]; [subst; lia | apply IH in H; lia].
+Qed.
+
+Lemma fmax_attained : forall {A} (f : A -> nat) l, l <> [] ->
+  exists i k, nth_error l i = Some k /\ f k = fmax f l.
+Proof.
+  intros A f l. induction l as [|x l IH]; intro H; [congruence|]. cbn [fmax fold_right]. fold (fmax f l).
+  destruct l as [|y l].
+  - exists 0, x. split; [reflexivity | cbn; lia].
+  - destruct IH as [i [k [Hi Hk]]]; [discriminate|].
+    destruct (Nat.max_spec (f x) (fmax f (y :: l))) as [[Hlt E]|[Hle E]]; rewrite E.
+    + exists (S i), k. split; assumption.
+    + exists 0, x. split; reflexivity.
+Qed.
+
+Lemma list_max_map : forall {A} (f : A -> nat) l, list_max (map f l) = fmax f l.
+Proof. intros A f l. unfold list_max, fmax. induction l as [|x l IH]; [reflexivity|]. cbn [map fold_right]. rewrite IH. reflexivity. Qed.
+
+Lemma height_unfold : forall g n a ks, height (T g n a ks) = S (fmax height ks).
+Proof. reflexivity. Qed.
+
+Lemma In_positions_cons : forall g n a ks i q,
+  In (i :: q) (positions (T g n a ks)) <-> exists k, nth_error ks i = Some k /\ In q (positions k).
+Proof.
+  intros g n a ks i q. rewrite positions_eq. cbn [In]. rewrite In_pos_go, Nat.sub_0_r. split.
+  - intros [H|[k [_ H]]]; [discriminate | eauto].
+  - intros [k H]. right. exists k. split; [lia | exact H].
+Qed.
+
+Lemma height_upper : forall s q, In q (positions s) -> S (length q) <= height s.
+Proof.
+  induction s as [g n a ks IH] using tree_ind'. intros [|i q] H; rewrite height_unfold; cbn [length]; [lia|].
+  apply In_positions_cons in H. destruct H as [k [Hn Hq]].
+  apply nth_error_In in Hn. rewrite Forall_forall in IH. specialize (IH k Hn q Hq).
+  pose proof (fmax_ge height ks k Hn). lia.
+Qed.
+
+Lemma height_attained : forall s, exists q, In q (positions s) /\ S (length q) = height s.
+Proof.
+  induction s as [g n a ks IH] using tree_ind'. rewrite height_unfold. destruct ks as [|k0 ks'].
+  - exists []. split; [left; reflexivity | reflexivity].
+  - destruct (fmax_attained height (k0 :: ks')) as [i [k [Hi Hk]]]; [discriminate|].
+    rewrite Forall_forall in IH. destruct (IH k (nth_error_In _ _ Hi)) as [q [Hq Hl]].
+    exists (i :: q). split; [apply In_positions_cons; eauto | cbn [length]; lia].
+Qed.
+
+(* F.3  the value the accumulator ends with, as a function of the tree *)
+
+Fixpoint diam (s : tree) : nat :=
+  match s with
+  | T _ _ _ ks =>
+      match ks with
+      | [] => 0
+      | _ :: _ => Nat.max (fold_right (fun k a => Nat.max (diam k) a) 0 ks) (top2 (map height ks))
+      end
+  end.
+
+Lemma diam_unfold : forall g n a ks, ks <> [] ->
+  diam (T g n a ks) = Nat.max (fmax diam ks) (top2 (map height ks)).
+Proof. intros g n a [|k ks] H; [congruence | reflexivity]. Qed.
+
+Definition rd_go :=
+  fix go (l : list tree) (d : nat) : list nat * nat :=
+    match l with
+    | [] => ([], d)
+    | k :: r => let '(x, d1) := recursive_diameter k d in
+                let '(xs, d2) := go r d1 in (x :: xs, d2)
+    end.
+
+Lemma recursive_diameter_unfold : forall g n a k ks d,
+  recursive_diameter (T g n a (k :: ks)) d =
+  let '(child_length, d1) := rd_go (k :: ks) d in
+  (1 + list_max child_length, Nat.max d1 (list_sum (nlargest 2 child_length))).
+Proof. reflexivity. Qed.
+
+Lemma rd_go_cons : forall k r d,
+  rd_go (k :: r) d = let '(x, d1) := recursive_diameter k d in let '(xs, d2) := rd_go r d1 in (x :: xs, d2).
+Proof. reflexivity. Qed.
+
+Lemma rd_go_spec : forall l,
+  Forall (fun k => forall d, recursive_diameter k d = (height k, Nat.max d (diam k))) l ->
+  forall d, rd_go l d = (map height l, Nat.max d (fmax diam l)).
+Proof.
+  induction l as [|k l IH]; intros HF d.
+  - cbn. rewrite Nat.max_0_r. reflexivity.
+  - inversion HF as [|? ? Hk Hl]; subst. rewrite rd_go_cons, Hk, (IH Hl).
+    cbn [map fmax fold_right]. fold (fmax diam l). rewrite Nat.max_assoc. reflexivity.
+Qed.
+
+Lemma recursive_diameter_spec : forall s d, recursive_diameter s d = (height s, Nat.max d (diam s)).
+Proof.
+  induction s as [g n a ks IH] using tree_ind'. intro d. destruct ks as [|k ks].
+  - cbn. rewrite Nat.max_0_r. reflexivity.
+  - rewrite recursive_diameter_unfold, (rd_go_spec _ IH). rewrite list_max_map.
+    rewrite height_unfold, diam_unfold by discriminate. unfold top2. rewrite Nat.max_assoc. reflexivity.
+Qed.
+
+Lemma sub_diameter_eq : forall s, sub_diameter s = diam s.
+Proof.
+  intros [g n a ks]. unfold sub_diameter. destruct ks as [|k ks]; [reflexivity|].
+  unfold sub_is_leaf. cbn [tkids length Nat.eqb]. rewrite recursive_diameter_spec. reflexivity.
+Qed.
+
+(* F.4  distances *)
+
+Lemma dist_nil_l : forall b, dist [] b = length b.
+Proof. intro b. unfold dist. cbn. lia. Qed.
+Lemma dist_nil_r : forall a, dist a [] = length a.
+Proof. intros [|i a]; unfold dist; cbn; lia. Qed.
+Lemma dist_cons_eq : forall i a b, dist (i :: a) (i :: b) = dist a b.
+Proof. intros i a b. unfold dist. cbn [lcp length]. rewrite Nat.eqb_refl. cbn [length]. lia. Qed.
+Lemma dist_cons_neq : forall i j a b, i <> j -> dist (i :: a) (j :: b) = S (length a) + S (length b).
+Proof.
+  intros i j a b H. unfold dist. cbn [lcp length]. apply Nat.eqb_neq in H. rewrite H. cbn [length]. lia.
+Qed.
+Lemma dist_sym : forall a b, dist a b = dist b a.
+Proof.
+  induction a as [|i a IH]; intros b.
+  - rewrite dist_nil_l, dist_nil_r. reflexivity.
+  - destruct b as [|j b]; [rewrite dist_nil_l, dist_nil_r; reflexivity|].
+    destruct (Nat.eq_dec i j) as [E|NE].
+    + subst. rewrite !dist_cons_eq. apply IH.
+    + rewrite !dist_cons_neq by congruence. lia.
+Qed.
+
+(* F.5  the model's diameter is the largest distance between two nodes of the subtree *)
+
+Lemma diam_upper : forall s a b, In a (positions s) -> In b (positions s) -> dist a b <= diam s.
+Proof.
+  induction s as [g n at_ ks IH] using tree_ind'. rewrite Forall_forall in IH.
+  intros a b Ha Hb.
+  assert (Hdeep : forall i q k, nth_error ks i = Some k -> In q (positions k) ->
+                  ks <> [] /\ S (length q) <= height k /\ In (height k) (map height ks)).
+  { intros i q k Hn Hq. split; [destruct ks; [destruct i; discriminate | discriminate]|].
+    split; [apply height_upper; exact Hq|]. apply in_map. eapply nth_error_In; eauto. }
+  destruct a as [|i a]; destruct b as [|j b].
+  - unfold dist. cbn. lia.
+  - rewrite dist_nil_l. cbn [length]. apply In_positions_cons in Hb. destruct Hb as [k [Hn Hq]].
+    destruct (Hdeep j b k Hn Hq) as [Hne [Hh Hin]]. rewrite diam_unfold by exact Hne.
+    pose proof (top2_single _ _ Hin). lia.
+  - rewrite dist_nil_r. cbn [length]. apply In_positions_cons in Ha. destruct Ha as [k [Hn Hq]].
+    destruct (Hdeep i a k Hn Hq) as [Hne [Hh Hin]]. rewrite diam_unfold by exact Hne.
+    pose proof (top2_single _ _ Hin). lia.
+  - apply In_positions_cons in Ha. destruct Ha as [ka [Hna Hqa]].
+    apply In_positions_cons in Hb. destruct Hb as [kb [Hnb Hqb]].
+    destruct (Hdeep i a ka Hna Hqa) as [Hne [Hha _]]. destruct (Hdeep j b kb Hnb Hqb) as [_ [Hhb _]].
+    rewrite diam_unfold by exact Hne.
+    destruct (Nat.eq_dec i j) as [E|NE].
+    + subst j. rewrite Hna in Hnb. inversion Hnb; subst kb. rewrite dist_cons_eq.
+      pose proof (IH ka (nth_error_In _ _ Hna) a b Hqa Hqb).
+      pose proof (fmax_ge diam ks ka (nth_error_In _ _ Hna)). lia.
+    + rewrite dist_cons_neq by exact NE.
+      assert (Hma : nth_error (map height ks) i = Some (height ka)) by (apply map_nth_error; exact Hna).
+      assert (Hmb : nth_error (map height ks) j = Some (height kb)) by (apply map_nth_error; exact Hnb).
+      destruct (Nat.lt_ge_cases i j) as [Hlt|Hge].
+      * pose proof (top2_pair _ _ _ (two_of_nth _ i j _ _ Hlt Hma Hmb)). lia.
+      * assert (Hlt : j < i) by lia.
+        pose proof (top2_pair _ _ _ (two_of_nth _ j i _ _ Hlt Hmb Hma)). lia.
+Qed.
+
+Lemma diam_attained : forall s, exists a b, In a (positions s) /\ In b (positions s) /\ dist a b = diam s.
+Proof.
+  induction s as [g n at_ ks IH] using tree_ind'. rewrite Forall_forall in IH.
+  destruct ks as [|k0 ks'] eqn:Eks.
+  - exists [], []. split; [left; reflexivity|]. split; [left; reflexivity | reflexivity].
+  - rewrite <- Eks in *. assert (Hne : ks <> []) by (rewrite Eks; discriminate).
+    rewrite diam_unfold by exact Hne.
+    destruct (Nat.max_spec (fmax diam ks) (top2 (map height ks))) as [[_ E]|[_ E]]; rewrite E.
+    + (* through this node *)
+      destruct (top2_attained (map height ks)) as [[Hnil _]|[[h [Hone Htop]]|[x [y [Htwo Htop]]]]].
+      * destruct ks; [congruence | discriminate].
+      * destruct ks as [|k [|k' r]]; try discriminate. cbn [map] in Hone. injection Hone as Hone.
+        destruct (height_attained k) as [q [Hq Hl]].
+        exists [], (0 :: q). split; [left; reflexivity|]. split.
+        -- apply In_positions_cons. exists k. split; [reflexivity | exact Hq].
+        -- rewrite dist_nil_l, Htop, <- Hone. cbn [length]. exact Hl.
+      * apply nth_two_of in Htwo. destruct Htwo as [i [j [Hij [Hi Hj]]]].
+        rewrite nth_error_map in Hi, Hj.
+        destruct (nth_error ks i) as [ka|] eqn:Hna; [|discriminate].
+        destruct (nth_error ks j) as [kb|] eqn:Hnb; [|discriminate].
+        cbn in Hi, Hj. inversion Hi; inversion Hj; subst x y.
+        destruct (height_attained ka) as [qa [Hqa Hla]]. destruct (height_attained kb) as [qb [Hqb Hlb]].
+        exists (i :: qa), (j :: qb). split; [apply In_positions_cons; eauto|]. split; [apply In_positions_cons; eauto|].
+        rewrite dist_cons_neq by lia. lia.
+    + (* inside one child *)
+      destruct (fmax_attained diam ks Hne) as [i [k [Hi Hk]]].
+      destruct (IH k (nth_error_In _ _ Hi)) as [a [b [Ha [Hb Hd]]]].
+      exists (i :: a), (i :: b). split; [apply In_positions_cons; eauto|]. split; [apply In_positions_cons; eauto|].
+      rewrite dist_cons_eq. lia.
+Qed.
+
+Lemma node_diameter_upper : forall t p s, subtree_at t p = Some s ->
+  forall a b, In a (positions s) -> In b (positions s) -> dist a b <= node_diameter t p.
+Proof. intros t p s Hs a b Ha Hb. unfold node_diameter. rewrite Hs, sub_diameter_eq. apply diam_upper; assumption. Qed.
+
+Lemma node_diameter_attained : forall t p s, subtree_at t p = Some s ->
+  exists a b, In a (positions s) /\ In b (positions s) /\ dist a b = node_diameter t p.
+Proof. intros t p s Hs. unfold node_diameter. rewrite Hs, sub_diameter_eq. apply diam_attained. Qed.
+
+(* ============================================================================================== *)
+(* G. go_to                                                                                         *)
+
+Lemma lcp_length_l : forall p q, length (lcp p q) <= length p.
+Proof.
+  induction p as [|i p IH]; intros [|j q]; cbn [lcp length]; try lia.
+  destruct (Nat.eqb i j); cbn [length]; [specialize (IH q) |]; lia.
+Qed.
+Lemma lcp_length_r : forall p q, length (lcp p q) <= length q.
+Proof.
+  induction p as [|i p IH]; intros [|j q]; cbn [lcp length]; try lia.
+  destruct (Nat.eqb i j); cbn [length]; [specialize (IH q) |]; lia.
+Qed.
+Lemma lcp_firstn_l : forall p q, firstn (length (lcp p q)) p = lcp p q.
+Proof.
+  induction p as [|i p IH]; intros [|j q]; cbn [lcp length firstn]; try reflexivity.
+  destruct (Nat.eqb i j); cbn [length firstn]; [rewrite IH|]; reflexivity.
+Qed.
+Lemma lcp_firstn_r : forall p q, firstn (length (lcp p q)) q = lcp p q.
+Proof.
+  induction p as [|i p IH]; intros [|j q]; cbn [lcp length firstn]; try reflexivity.
+  destruct (Nat.eqb i j) eqn:E; cbn [length firstn]; [|reflexivity].
+  apply Nat.eqb_eq in E. subst. rewrite IH. reflexivity.
+Qed.
+Lemma lcp_refl : forall p, lcp p p = p.
+Proof. induction p as [|i p IH]; [reflexivity|]. cbn [lcp]. rewrite Nat.eqb_refl, IH. reflexivity. Qed.
+
+(* a prefix of p is a prefix of q exactly when it is not longer than the common prefix *)
+Lemma is_prefix_firstn : forall p q k, k <= length p ->
+  is_prefix (firstn k p) q = Nat.leb k (length (lcp p q)).
+Proof.
+  induction p as [|i p IH]; intros q k Hk.
+  - cbn in Hk. assert (k = 0) by lia. subst. reflexivity.
+  - destruct k as [|k]; [reflexivity|]. cbn [length] in Hk. cbn [firstn]. destruct q as [|j q]; [reflexivity|].
+    cbn [is_prefix lcp]. destruct (Nat.eqb i j); cbn [andb length]; [apply IH; lia | reflexivity].
+Qed.
+
+Lemma existsb_andb_const : forall {A} (c : bool) (f : A -> bool) l,
+  existsb (fun y => c && f y) l = c && existsb f l.
+Proof.
+  intros A c f l. induction l as [|x l IH]; cbn [existsb]; [destruct c; reflexivity|].
+  rewrite IH. destruct c; reflexivity.
+Qed.
+
+Lemma existsb_map_ : forall {A B} (f : B -> bool) (g : A -> B) l, existsb f (map g l) = existsb (fun x => f (g x)) l.
+Proof. intros A B f g l. induction l as [|x l IH]; [reflexivity|]. cbn [map existsb]. rewrite IH. reflexivity. Qed.
+
+Lemma prefixes_cons : forall j q n,
+  prefixes_at (j :: q) (seq 0 (S n)) = [] :: map (cons j) (prefixes_at q (seq 0 n)).
+Proof.
+  intros j q n. change (seq 0 (S n)) with (0 :: seq 1 n). rewrite <- seq_shift. unfold prefixes_at.
+  cbn [map firstn]. f_equal. rewrite !map_map. reflexivity.
+Qed.
+
+Lemma mem_pos_prefixes : forall q x, mem_pos x (prefixes_at q (seq 0 (S (length q)))) = is_prefix x q.
+Proof.
+  induction q as [|j q IH]; intro x.
+  - destruct x; reflexivity.
+  - cbn [length]. rewrite prefixes_cons. unfold mem_pos. cbn [existsb]. destruct x as [|i x]; [reflexivity|].
+    cbn [is_prefix]. rewrite existsb_map_.
+    change (pos_eqb (i :: x) []) with false. cbn [orb].
+    rewrite <- (IH x). unfold mem_pos. rewrite <- existsb_andb_const. reflexivity.
+Qed.
+
+Lemma length_firstn_le : forall (p : pos) k, k <= length p -> length (firstn k p) = k.
+Proof. intros p k H. rewrite firstn_length. lia. Qed.
+
+Lemma pos_eqb_firstn : forall p a b, a <= length p -> b <= length p ->
+  pos_eqb (firstn a p) (firstn b p) = Nat.eqb a b.
+Proof.
+  intros p a b Ha Hb. destruct (Nat.eqb a b) eqn:E.
+  - apply Nat.eqb_eq in E. subst. apply pos_eqb_refl.
+  - apply pos_eqb_false. intro H. apply (f_equal (@length nat)) in H. rewrite !length_firstn_le in H by assumption.
+    apply Nat.eqb_neq in E. contradiction.
+Qed.
+
+(* index of a prefix in the list of prefixes, longest first *)
+Lemma index_pos_up : forall p n k, k <= n -> n <= length p ->
+  index_pos (firstn k p) (prefixes_at p (rev (seq 0 (S n)))) = n - k.
+Proof.
+  intros p n. induction n as [|n IH]; intros k Hk Hn.
+  - assert (k = 0) by lia. subst. cbn. destruct p; reflexivity.
+  - rewrite rev_seq_S. cbn [prefixes_at map index_pos]. rewrite pos_eqb_firstn by lia.
+    destruct (Nat.eqb k (S n)) eqn:E.
+    + apply Nat.eqb_eq in E. lia.
+    + apply Nat.eqb_neq in E. fold (prefixes_at p (rev (seq 0 (S n)))). rewrite IH by lia. lia.
+Qed.
+
+(* index of a prefix in the list of prefixes, shortest first *)
+Lemma index_pos_down : forall q len a k, a <= k -> k < a + len -> a + len <= S (length q) ->
+  index_pos (firstn k q) (prefixes_at q (seq a len)) = k - a.
+Proof.
+  intros q len. induction len as [|len IH]; intros a k Ha Hk Hl; [lia|].
+  cbn [seq prefixes_at map index_pos]. rewrite pos_eqb_firstn by lia.
+  destruct (Nat.eqb k a) eqn:E.
+  - apply Nat.eqb_eq in E. lia.
+  - apply Nat.eqb_neq in E. fold (prefixes_at q (seq (S a) len)). rewrite IH by lia. lia.
+Qed.
+
+Lemma filter_le_rev_seq : forall n l, l <= n ->
+  filter (fun k => Nat.leb k l) (rev (seq 0 (S n))) = rev (seq 0 (S l)).
+Proof.
+  induction n as [|n IH]; intros l Hl.
+  - assert (l = 0) by lia. subst. reflexivity.
+  - destruct (Nat.eq_dec l (S n)) as [E|NE].
+    + subst l. apply filter_all. intros k Hk. apply in_rev, in_seq in Hk. apply Nat.leb_le. lia.
+    + rewrite rev_seq_S. cbn [filter]. replace (Nat.leb (S n) l) with false by (symmetry; apply Nat.leb_gt; lia).
+      apply IH. lia.
+Qed.
+
+Lemma min_pair_up : forall (p : pos) n l, l <= n ->
+  min_pair (map (fun k => (n - k, firstn k p)) (rev (seq 0 (S l)))) = Some (n - l, firstn l p).
+Proof.
+  intros p n. induction l as [|l IH]; intro Hl; [reflexivity|].
+  rewrite rev_seq_S. cbn [map min_pair]. rewrite IH by lia. cbn [fst].
+  replace (Nat.leb (n - S l) (n - l)) with true by (symmetry; apply Nat.leb_le; lia). reflexivity.
+Qed.
+
+Lemma skipn_seq_ : forall a s len, skipn a (seq s len) = seq (s + a) (len - a).
+Proof.
+  induction a as [|a IH]; intros s len.
+  - rewrite Nat.add_0_r, Nat.sub_0_r. reflexivity.
+  - destruct len as [|len]; [reflexivity|]. cbn [seq skipn]. rewrite IH. rewrite Nat.add_succ_r. reflexivity.
+Qed.
+
+Lemma firstn_rev_seq : forall n l, l <= n ->
+  firstn (n - l) (rev (seq 0 (S n))) = rev (seq (S l) (n - l)).
+Proof.
+  intros n l Hl. replace (S n) with (S l + (n - l)) by lia. rewrite seq_app, rev_app_distr.
+  cbn [Nat.add]. replace (n - l) with (length (rev (seq (S l) (n - l))) + 0) at 1
+    by (rewrite rev_length, seq_length; lia).
+  rewrite firstn_app_2. cbn [firstn]. apply app_nil_r.
+Qed.
+
+Lemma self_path_eq : forall p, p :: node_ancestors p = prefixes_at p (rev (seq 0 (S (length p)))).
+Proof. intro p. rewrite node_ancestors_eq, rev_seq_S. cbn [prefixes_at map]. rewrite firstn_all. reflexivity. Qed.
+
+Lemma spec_go_to_self : forall p, spec_go_to p p = [p].
+Proof.
+  intro p. unfold spec_go_to, up_chain, down_chain. rewrite lcp_refl, Nat.sub_diag. cbn [seq rev map app].
+  rewrite firstn_all. reflexivity.
+Qed.
+
+Lemma node_go_to_same_tree : forall i p q, node_go_to (i, p) (GNode (i, q)) = Ret (spec_go_to p q).
+Proof.
+  intros i p q. unfold node_go_to, nodeid_root, nodeid_eqb. cbn [fst snd]. rewrite !node_root_eq, Nat.eqb_refl.
+  cbn [pos_eqb list_eqb andb negb].
+  destruct (pos_eqb p q) eqn:Epq.
+  - apply pos_eqb_true in Epq. subst q. rewrite spec_go_to_self. reflexivity.
+  - rewrite <- node_path_rev_ancestors, node_path_eq, self_path_eq.
+    set (n := length p). set (m := length q). set (l := length (lcp p q)).
+    assert (Hln : l <= n) by apply lcp_length_l. assert (Hlm : l <= m) by apply lcp_length_r.
+    (* the common nodes: the prefixes of p not longer than the common prefix *)
+    assert (Hcommon : filter (fun x => mem_pos x (prefixes_at q (seq 0 (S m)))) (prefixes_at p (rev (seq 0 (S n))))
+                      = prefixes_at p (rev (seq 0 (S l)))).
+    { unfold prefixes_at at 2. rewrite filter_map_comm. fold (prefixes_at p).
+      rewrite <- (filter_le_rev_seq n l Hln). unfold prefixes_at at 2. f_equal. apply filter_ext_in.
+      intros k Hk. apply in_rev, in_seq in Hk. unfold m. rewrite mem_pos_prefixes. apply is_prefix_firstn. unfold n in *. lia. }
+    rewrite Hcommon.
+    assert (Hpairs : map (fun x => (index_pos x (prefixes_at p (rev (seq 0 (S n)))), x)) (prefixes_at p (rev (seq 0 (S l))))
+                     = map (fun k => (n - k, firstn k p)) (rev (seq 0 (S l)))).
+    { unfold prefixes_at at 2. rewrite map_map. apply map_ext_in. intros k Hk. apply in_rev, in_seq in Hk.
+      rewrite index_pos_up by (unfold n in *; lia). reflexivity. }
+    rewrite Hpairs, (min_pair_up p n l Hln).
+    unfold l at 2. rewrite lcp_firstn_l, <- (lcp_firstn_r p q). fold l.
+    rewrite index_pos_down by (unfold m in *; lia). rewrite Nat.sub_0_r.
+    unfold spec_go_to, up_chain, down_chain. fold l n m. f_equal. f_equal.
+    + unfold prefixes_at. rewrite firstn_map, firstn_rev_seq by exact Hln. reflexivity.
+    + unfold prefixes_at. rewrite skipn_map, skipn_seq_. cbn [Nat.add]. replace (S m - l) with (S (m - l)) by lia. reflexivity.
+Qed.
+
+Lemma node_go_to_other_tree : forall i j p q, i <> j -> node_go_to (i, p) (GNode (j, q)) = Raise TreeError.
+Proof.
+  intros i j p q H. unfold node_go_to, nodeid_root, nodeid_eqb. cbn [fst snd].
+  apply Nat.eqb_neq in H. rewrite H. reflexivity.
+Qed.
+
+Lemma node_go_to_junk : forall self, node_go_to self GJunk = Raise TypeError.
+Proof. reflexivity. Qed.
+
+(* ============================================================================================== *)
+(* H. the first-principles (document-order filter) definitions of Spec/PC12.v                       *)
+
+Lemma filter_andb : forall {A} (f g : A -> bool) l, filter (fun x => f x && g x) l = filter g (filter f l).
+Proof. intros A f g l. rewrite filter_filter. reflexivity. Qed.
+
+Lemma filter_lt_seq : forall (p : pos) n, n <= length p ->
+  filter (fun k => Nat.ltb (length (firstn k p)) n) (seq 0 (S n)) = seq 0 n.
+Proof.
+  intros p n Hn. rewrite seq_S, filter_app. cbn [filter Nat.add]. rewrite length_firstn_le by exact Hn.
+  rewrite Nat.ltb_irrefl, app_nil_r. apply filter_all. intros k Hk. apply in_seq in Hk.
+  rewrite length_firstn_le by lia. apply Nat.ltb_lt. lia.
+Qed.
+
+Lemma spec_ancestors_eq : forall t p, valid t p = true -> spec_ancestors t p = node_ancestors p.
+Proof.
+  intros t p Hv. unfold spec_ancestors, proper_prefix. rewrite filter_andb, (filter_prefix_of p t Hv).
+  unfold prefixes_at. rewrite filter_map_comm, filter_lt_seq by lia.
+  rewrite node_ancestors_eq. unfold prefixes_at. rewrite map_rev. reflexivity.
+Qed.
+
+Lemma spec_node_path_eq : forall t p, valid t p = true -> spec_node_path t p = node_path p.
+Proof. intros t p Hv. unfold spec_node_path. rewrite (filter_prefix_of p t Hv), node_path_eq. reflexivity. Qed.
+
+Lemma spec_descendants_eq : forall t p s, subtree_at t p = Some s ->
+  spec_descendants t p = node_descendants t p.
+Proof.
+  intros t p s Hs. unfold spec_descendants, proper_prefix. rewrite filter_andb, (filter_prefixed_by p t s Hs).
+  rewrite filter_map_comm, (node_descendants_eq t p s Hs). f_equal.
+  rewrite (positions_hd s) at 1. cbn [filter]. rewrite app_nil_r, Nat.ltb_irrefl.
+  apply filter_all. intros q Hq. apply positions_tl_nonnil in Hq. apply Nat.ltb_lt. rewrite app_length.
+  destruct q; [congruence | cbn [length]; lia].
+Qed.
+
+Lemma spec_subtree_eq : forall t p s, subtree_at t p = Some s -> spec_subtree t p = map (app p) (positions s).
+Proof. intros t p s Hs. apply filter_prefixed_by. exact Hs. Qed.
+
+Lemma spec_leaves_eq : forall t p s, subtree_at t p = Some s -> spec_leaves t p = node_leaves t p.
+Proof.
+  intros t p s Hs. unfold spec_leaves. rewrite filter_andb, (filter_prefixed_by p t s Hs).
+  rewrite filter_map_comm, (node_leaves_eq t p s Hs). f_equal. apply filter_ext_in.
+  intros q Hq. apply In_positions in Hq. destruct Hq as [u Hu].
+  unfold childless, sub_or, sub_is_leaf. rewrite subtree_at_app, Hs, Hu. destruct (tkids u); reflexivity.
+Qed.
+
+(* siblings *)
+
+Lemma are_siblings_nil_r : forall a, are_siblings a [] = false.
+Proof. intros [|j a]; reflexivity. Qed.
+
+Lemma are_siblings_cons : forall j a c b, b <> [] ->
+  are_siblings (j :: a) (c :: b) = Nat.eqb j c && are_siblings a b.
+Proof.
+  intros j a c b Hb. destruct b as [|b0 b]; [congruence|]. destruct a as [|a0 a].
+  - cbn. rewrite andb_false_r. reflexivity.
+  - unfold are_siblings.
+    change (removelast (j :: a0 :: a)) with (j :: removelast (a0 :: a)).
+    change (removelast (c :: b0 :: b)) with (c :: removelast (b0 :: b)).
+    unfold pos_eq. cbn [list_eqb]. destruct (Nat.eqb j c); reflexivity.
+Qed.
+
+Lemma are_siblings_single : forall a i, are_siblings a [i] = match a with [j] => negb (Nat.eqb j i) | _ => false end.
+Proof.
+  intros [|j [|j' a]] i; [reflexivity | |].
+  - cbn. rewrite andb_true_r. reflexivity.
+  - unfold are_siblings. change (removelast (j :: j' :: a)) with (j :: removelast (j' :: a)). reflexivity.
+Qed.
+
+Lemma filter_single_pos_go : forall i l o,
+  filter (fun a => are_siblings a [i]) (pos_go o l) =
+  map (fun j => [j]) (filter (fun j => negb (Nat.eqb j i)) (seq o (length l))).
+Proof.
+  intros i. induction l as [|k l IH]; intro o; [reflexivity|].
+  cbn [pos_go length seq]. rewrite filter_app, IH. rewrite (positions_hd k). cbn [map filter].
+  rewrite are_siblings_single.
+  assert (H : filter (fun a => are_siblings a [i]) (map (cons o) (tl (positions k))) = []).
+  { apply filter_none. intros x Hx. apply in_map_iff in Hx. destruct Hx as [q [E Hq]]. subst x.
+    apply positions_tl_nonnil in Hq. rewrite are_siblings_single. destruct q; [congruence | reflexivity]. }
+  unfold pos in *. rewrite H. destruct (negb (Nat.eqb o i)); reflexivity.
+Qed.
+
+Lemma spec_siblings_eq : forall par t i, valid t (par ++ [i]) = true ->
+  spec_siblings t (par ++ [i]) = node_siblings t (par ++ [i]).
+Proof.
+  intros par t i Hv. rewrite node_siblings_eq. unfold spec_siblings. revert t Hv.
+  induction par as [|c par IH]; intros [g n a ks] Hv.
+  - cbn [app]. rewrite positions_eq. cbn [filter]. rewrite are_siblings_single, filter_single_pos_go.
+    unfold node_arity. cbn [subtree_at tkids]. apply map_ext. reflexivity.
+  - cbn [app] in *. apply valid_cons in Hv. destruct Hv as [k [Hn Hk]].
+    rewrite positions_eq. cbn [filter]. change (are_siblings [] (c :: par ++ [i])) with false. cbn iota.
+    rewrite (filter_pos_go (fun a => are_siblings a (c :: par ++ [i])) (fun a => are_siblings a (par ++ [i])) c).
+    + rewrite Nat.sub_0_r, Hn. rewrite (IH k Hk). rewrite map_map.
+      unfold node_arity. cbn [subtree_at tkids]. rewrite Hn. reflexivity.
+    + intros j b. apply are_siblings_cons. destruct par; discriminate.
+    + lia.
+Qed.
+
+Lemma spec_siblings_root : forall t, spec_siblings t [] = [].
+Proof. intro t. unfold spec_siblings. apply filter_none. intros x _. apply are_siblings_nil_r. Qed.
+
+Lemma find_filter : forall {A} (f : A -> bool) l, find f l = hd_error (filter f l).
+Proof. intros A f l. induction l as [|x l IH]; [reflexivity|]. cbn [find filter]. destruct (f x); [reflexivity | exact IH]. Qed.
+
+Lemma filter_eq_seq : forall c n a,
+  filter (fun j => Nat.eqb j c) (seq a n) = if Nat.leb a c && Nat.ltb c (a + n) then [c] else [].
+Proof.
+  intros c. induction n as [|n IH]; intro a.
+  - cbn [seq filter]. destruct (Nat.leb a c) eqn:E1; [|reflexivity]. cbn [andb].
+    replace (Nat.ltb c (a + 0)) with false; [reflexivity|]. symmetry. apply Nat.ltb_ge. apply Nat.leb_le in E1. lia.
+  - cbn [seq filter]. rewrite IH. destruct (Nat.eqb a c) eqn:E.
+    + apply Nat.eqb_eq in E. subst a.
+      replace (Nat.leb (S c) c) with false by (symmetry; apply Nat.leb_gt; lia). cbn [andb].
+      rewrite Nat.leb_refl. replace (Nat.ltb c (c + S n)) with true by (symmetry; apply Nat.ltb_lt; lia). reflexivity.
+    + apply Nat.eqb_neq in E. replace (S a + n) with (a + S n) by lia.
+      destruct (Nat.ltb c (a + S n)); [|rewrite !andb_false_r; reflexivity]. rewrite !andb_true_r.
+      destruct (Nat.leb_spec a c); destruct (Nat.leb_spec (S a) c); try reflexivity; exfalso; lia.
+Qed.
+
+Lemma last_child_of : forall q j, last (child_of q j) 0 = j.
+Proof. intros q j. unfold child_of. apply last_last. Qed.
+
+Lemma spec_left_sibling_eq : forall par t i, valid t (par ++ [i]) = true ->
+  spec_left_sibling t (par ++ [i]) = node_left_sibling t (par ++ [i]).
+Proof.
+  intros par t i Hv. rewrite (node_left_sibling_eq t par i Hv). unfold spec_left_sibling.
+  rewrite find_filter, filter_andb. fold (spec_siblings t (par ++ [i])).
+  rewrite (spec_siblings_eq par t i Hv), node_siblings_eq, filter_map_comm, filter_filter.
+  apply valid_child in Hv. fold (child_of par i). rewrite last_child_of.
+  destruct i as [|c].
+  - rewrite filter_none; [reflexivity|]. intros j _. rewrite last_child_of. cbn. apply andb_false_r.
+  - rewrite (filter_ext _ (fun j => Nat.eqb j c)).
+    + rewrite filter_eq_seq. cbn [Nat.leb andb Nat.add].
+      replace (Nat.ltb c (node_arity t par)) with true by (symmetry; apply Nat.ltb_lt; lia). reflexivity.
+    + intro j. rewrite last_child_of. cbn [Nat.eqb]. destruct (Nat.eqb j c) eqn:E.
+      * apply Nat.eqb_eq in E. subst. replace (Nat.eqb c (S c)) with false by (symmetry; apply Nat.eqb_neq; lia). reflexivity.
+      * apply andb_false_r.
+Qed.
+
+Lemma spec_right_sibling_eq : forall par t i, valid t (par ++ [i]) = true ->
+  spec_right_sibling t (par ++ [i]) = node_right_sibling t (par ++ [i]).
+Proof.
+  intros par t i Hv. rewrite (node_right_sibling_eq t par i Hv). unfold spec_right_sibling.
+  rewrite find_filter, filter_andb. fold (spec_siblings t (par ++ [i])).
+  rewrite (spec_siblings_eq par t i Hv), node_siblings_eq, filter_map_comm, filter_filter.
+  fold (child_of par i). rewrite last_child_of.
+  rewrite (filter_ext _ (fun j => Nat.eqb j (S i))).
+  - rewrite filter_eq_seq. cbn [Nat.leb andb Nat.add].
+    destruct (valid t (par ++ [S i])) eqn:V.
+    + apply valid_child in V. replace (Nat.ltb (S i) (node_arity t par)) with true by (symmetry; apply Nat.ltb_lt; lia). reflexivity.
+    + destruct (Nat.ltb (S i) (node_arity t par)) eqn:E; [|reflexivity].
+      apply Nat.ltb_lt in E. apply valid_child in E. congruence.
+  - intro j. rewrite last_child_of. destruct (Nat.eqb j (S i)) eqn:E.
+    + apply Nat.eqb_eq in E. subst. replace (Nat.eqb (S i) i) with false by (symmetry; apply Nat.eqb_neq; lia). reflexivity.
+    + apply andb_false_r.
+Qed.
+
+Lemma spec_left_sibling_root : forall t, spec_left_sibling t [] = None.
+Proof.
+  intro t. unfold spec_left_sibling. rewrite find_filter, filter_none; [reflexivity|].
+  intros x _. rewrite are_siblings_nil_r. reflexivity.
+Qed.
+Lemma spec_right_sibling_root : forall t, spec_right_sibling t [] = None.
+Proof.
+  intro t. unfold spec_right_sibling. rewrite find_filter, filter_none; [reflexivity|].
+  intros x _. rewrite are_siblings_nil_r. reflexivity.
+Qed.
+
+Lemma spec_root_eq : forall t p, spec_root t p = Some (node_root p).
+Proof. intros t p. unfold spec_root. rewrite positions_hd, node_root_eq. reflexivity. Qed.
+
+Lemma dist_app : forall p a b, dist (p ++ a) (p ++ b) = dist a b.
+Proof. induction p as [|i p IH]; intros a b; [reflexivity|]. cbn [app]. rewrite dist_cons_eq. apply IH. Qed.
+
+Lemma list_max_ge : forall l x, In x l -> x <= list_max l.
+Proof.
+  intros l x H. assert (HF : Forall (fun k => k <= list_max l) l) by (apply list_max_le; lia).
+  rewrite Forall_forall in HF. apply HF. exact H.
+Qed.
+
+Lemma spec_diameter_eq : forall t p s, subtree_at t p = Some s -> spec_diameter t p = node_diameter t p.
+Proof.
+  intros t p s Hs. unfold spec_diameter, node_diameter. rewrite (spec_subtree_eq t p s Hs), Hs, sub_diameter_eq.
+  apply Nat.le_antisymm.
+  - apply list_max_le. apply Forall_forall. intros d Hd.
+    apply in_flat_map in Hd. destruct Hd as [a [Ha Hd]]. apply in_map_iff in Hd. destruct Hd as [b [E Hb]].
+    apply in_map_iff in Ha. destruct Ha as [a' [Ea Ha]]. apply in_map_iff in Hb. destruct Hb as [b' [Eb Hb]].
+    subst. rewrite dist_app. apply diam_upper; assumption.
+  - destruct (diam_attained s) as [a [b [Ha [Hb E]]]]. rewrite <- E. apply list_max_ge.
+    apply in_flat_map. exists (p ++ a). split; [apply in_map; exact Ha|].
+    apply in_map_iff. exists (p ++ b). split; [apply dist_app | apply in_map; exact Hb].
+Qed.
+
+(* ---- all queries of a node at once -------------------------------------------------------------- *)
+From BT Require Import Corr.DerivedCorr.
+
+Lemma no_descendants_iff_leaf : forall p s,
+  Nat.eqb (length (map (app p) (tl (positions s)))) 0 = sub_is_leaf s.
+Proof.
+  intros p [g n a [|k ks]]; [reflexivity|].
+  rewrite positions_eq. cbn [tl pos_go]. rewrite (positions_hd k). reflexivity.
+Qed.
+
+Lemma valid_subtree : forall t p, valid t p = true -> exists s, subtree_at t p = Some s.
+Proof. intros t p H. unfold valid in H. destruct (subtree_at t p) as [s|]; [eauto | discriminate]. Qed.
+
+Theorem model_qvals_spec : forall t p, valid t p = true -> model_qvals t p = spec_qvals t p.
+Proof.
+  intros t p Hv. destruct (valid_subtree t p Hv) as [s Hs].
+  assert (Hsib : spec_siblings t p = node_siblings t p /\ spec_left_sibling t p = node_left_sibling t p
+                 /\ spec_right_sibling t p = node_right_sibling t p).
+  { destruct (list_eq_dec Nat.eq_dec p []) as [E|NE].
+    - subst p. rewrite spec_siblings_root, spec_left_sibling_root, spec_right_sibling_root. auto.
+    - destruct (exists_last NE) as [par [i E]]. subst p.
+      rewrite spec_siblings_eq, spec_left_sibling_eq, spec_right_sibling_eq by exact Hv. auto. }
+  destruct Hsib as [H1 [H2 H3]].
+  unfold model_qvals, spec_qvals.
+  rewrite H1, H2, H3, (spec_ancestors_eq t p Hv), (spec_descendants_eq t p s Hs), (spec_leaves_eq t p s Hs),
+    (spec_node_path_eq t p Hv), spec_root_eq, (spec_diameter_eq t p s Hs), node_max_depth_eq.
+  unfold spec_depth. rewrite (spec_ancestors_eq t p Hv), <- node_depth_ancestors, <- node_is_root_no_ancestors.
+  rewrite (node_descendants_eq t p s Hs), no_descendants_iff_leaf, <- (node_is_leaf_eq t p s Hs).
+  reflexivity.
+Qed.
+
+Lemma qvals_eqb_refl : forall v, qvals_eqb v v = true.
+Proof.
+  intros [a b c d e f g h i j k l m]. unfold qvals_eqb. cbn.
+  rewrite !lpos_eq_refl, !opos_eq_refl, !Bool.eqb_reflx, pos_eq_refl, !Nat.eqb_refl. reflexivity.
+Qed.
+
+(* every value the model computes for a node is the first-principles one *)
+Theorem prop_C12_node_model : forall t p, valid t p = true -> prop_C12_node t p (model_qvals t p) = true.
+Proof.
+  intros t p Hv. unfold prop_C12_node. rewrite Hv, <- (model_qvals_spec t p Hv), qvals_eqb_refl.
+  cbn [andb model_qvals q_depth q_anc]. rewrite node_depth_ancestors. apply Nat.eqb_refl.
+Qed.
+
+(* ============================================================================================== *)
+(* I. the path of go_to is a simple path of the tree with dist p q edges                            *)
+
+Lemma valid_firstn : forall t p k, valid t p = true -> valid t (firstn k p) = true.
+Proof.
+  intros t p k H. unfold valid in *. rewrite <- (firstn_skipn k p) in H. rewrite subtree_at_app in H.
+  destruct (subtree_at t (firstn k p)); [reflexivity | discriminate].
+Qed.
+
+Lemma is_prefix_firstn_firstn : forall (p : pos) a b, a <= b -> is_prefix (firstn a p) (firstn b p) = true.
+Proof.
+  induction p as [|i p IH]; intros a b H.
+  - rewrite !firstn_nil. reflexivity.
+  - destruct a as [|a]; [reflexivity|]. destruct b as [|b]; [lia|]. cbn [firstn is_prefix].
+    rewrite Nat.eqb_refl. apply IH. lia.
+Qed.
+
+Lemma is_parent_firstn : forall (p : pos) k, k < length p -> is_parent_of (firstn k p) (firstn (S k) p) = true.
+Proof.
+  intros p k H. unfold is_parent_of, proper_prefix. rewrite is_prefix_firstn_firstn by lia.
+  rewrite !length_firstn_le by lia. rewrite Nat.eqb_refl. cbn [andb].
+  rewrite andb_true_r. apply Nat.ltb_lt. lia.
+Qed.
+
+Lemma consecutive_cons : forall x L, consecutive_adjacent (x :: L) =
+  match L with [] => true | y :: _ => adjacent x y && consecutive_adjacent L end.
+Proof. intros x [|y L]; reflexivity. Qed.
+
+Lemma consecutive_down : forall (q : pos) len a, a + len <= S (length q) ->
+  consecutive_adjacent (prefixes_at q (seq a len)) = true.
+Proof.
+  intros q len. induction len as [|len IH]; intros a H; [reflexivity|].
+  cbn [seq prefixes_at map]. fold (prefixes_at q (seq (S a) len)). rewrite consecutive_cons.
+  destruct len as [|len]; [reflexivity|].
+  cbn [seq prefixes_at map]. fold (prefixes_at q (seq (S (S a)) len)).
+  change (firstn (S a) q :: prefixes_at q (seq (S (S a)) len)) with (prefixes_at q (seq (S a) (S len))).
+  rewrite IH by lia. unfold adjacent. rewrite is_parent_firstn by lia. reflexivity.
+Qed.
+
+(* the upper part of the path: prefixes of p of lengths k, k-1, ..., l+1 *)
+Lemma up_chain_S : forall (p : pos) l d,
+  prefixes_at p (rev (seq (S l) (S d))) = firstn (S l + d) p :: prefixes_at p (rev (seq (S l) d)).
+Proof. intros p l d. rewrite seq_S, rev_app_distr. reflexivity. Qed.
+
+Definition path_from (p q : pos) (l d : nat) : list pos :=
+  prefixes_at p (rev (seq (S l) d)) ++ prefixes_at q (seq l (S (length q - l))).
+
+Lemma path_from_hd : forall p q l d, firstn l p = firstn l q ->
+  hd_error (path_from p q l d) = Some (firstn (l + d) p).
+Proof.
+  intros p q l d E. unfold path_from. destruct d as [|d].
+  - cbn. rewrite Nat.add_0_r, E. reflexivity.
+  - rewrite up_chain_S. cbn [app hd_error]. rewrite Nat.add_succ_r. reflexivity.
+Qed.
+
+Lemma path_from_consecutive : forall p q l d, firstn l p = firstn l q -> l + d <= length p -> l <= length q ->
+  consecutive_adjacent (path_from p q l d) = true.
+Proof.
+  intros p q l d E Hp Hq. induction d as [|d IH].
+  - unfold path_from. change (prefixes_at p (rev (seq (S l) 0))) with (@nil pos). cbn [app]. apply (consecutive_down q). lia.
+  - unfold path_from in *. rewrite up_chain_S. cbn [app]. rewrite consecutive_cons.
+    pose proof (path_from_hd p q l d E) as Hh. unfold path_from in Hh.
+    destruct (prefixes_at p (rev (seq (S l) d)) ++ prefixes_at q (seq l (S (length q - l)))) as [|y L] eqn:EL; [reflexivity|].
+    cbn [hd_error] in Hh. inversion Hh; subst y. rewrite IH by lia.
+    unfold adjacent. replace (S l + d) with (S (l + d)) by lia. rewrite is_parent_firstn by lia. rewrite orb_true_r. reflexivity.
+Qed.
+
+Lemma nodup_pos_NoDup : forall l, NoDup l -> nodup_pos l = true.
+Proof.
+  induction l as [|a l IH]; intro H; [reflexivity|]. inversion H as [|? ? Hn Hl]; subst.
+  cbn [nodup_pos]. rewrite (IH Hl), andb_true_r. apply negb_true_iff.
+  destruct (existsb (pos_eq a) l) eqn:E; [|reflexivity].
+  apply existsb_exists in E. destruct E as [x [Hx E]]. apply pos_eq_true in E. subst. contradiction.
+Qed.
+
+Lemma NoDup_prefixes : forall (q : pos) ks, NoDup ks -> (forall k, In k ks -> k <= length q) -> NoDup (prefixes_at q ks).
+Proof.
+  intros q ks. induction ks as [|k ks IH]; intros Hn Hle; [constructor|].
+  inversion Hn as [|? ? Hk Hks]; subst. cbn [prefixes_at map]. constructor.
+  - intro H. apply in_map_iff in H. destruct H as [k' [E Hk']].
+    apply (f_equal (@length nat)) in E. rewrite !length_firstn_le in E by (apply Hle; simpl; auto). subst. contradiction.
+  - apply IH; [exact Hks|]. intros k' Hk'. apply Hle. right. exact Hk'.
+Qed.
+
+Lemma path_from_NoDup : forall p q l d, l = length (lcp p q) -> l + d <= length p -> NoDup (path_from p q l d).
+Proof.
+  intros p q l d El Hp.
+  assert (Hlq : l <= length q) by (subst l; apply lcp_length_r).
+  induction d as [|d IH].
+  - unfold path_from. change (prefixes_at p (rev (seq (S l) 0))) with (@nil pos). cbn [app]. apply NoDup_prefixes; [apply seq_NoDup|].
+    intros k Hk. apply in_seq in Hk. lia.
+  - unfold path_from in *. rewrite up_chain_S. cbn [app]. constructor; [|apply IH; lia].
+    intro H. apply in_app_or in H. destruct H as [H|H]; apply in_map_iff in H; destruct H as [k [E Hk]].
+    + apply in_rev, in_seq in Hk. apply (f_equal (@length nat)) in E. rewrite !length_firstn_le in E by lia. lia.
+    + apply in_seq in Hk. pose proof E as E'. apply (f_equal (@length nat)) in E'. rewrite !length_firstn_le in E' by lia.
+      subst k. pose proof (is_prefix_firstn p q (S l + d)) as Hpre. rewrite <- E in Hpre.
+      rewrite <- (firstn_all q) in Hpre at 2. rewrite is_prefix_firstn_firstn in Hpre by lia.
+      specialize (Hpre ltac:(lia)). symmetry in Hpre. apply Nat.leb_le in Hpre. lia.
+Qed.
+
+Lemma path_from_valid : forall t p q l d, valid t p = true -> valid t q = true ->
+  forallb (valid t) (path_from p q l d) = true.
+Proof.
+  intros t p q l d Hp Hq. apply forallb_forall. intros x Hx. unfold path_from in Hx.
+  apply in_app_or in Hx. destruct Hx as [H|H]; apply in_map_iff in H; destruct H as [k [E _]]; subst x;
+    apply valid_firstn; assumption.
+Qed.
+
+Lemma spec_go_to_path_from : forall p q,
+  spec_go_to p q = path_from p q (length (lcp p q)) (length p - length (lcp p q)).
+Proof. reflexivity. Qed.
+
+Lemma last_prefixes_down : forall (q : pos) l, l <= length q ->
+  last (prefixes_at q (seq l (S (length q - l)))) [] = q.
+Proof.
+  intros q l H. rewrite seq_S. unfold prefixes_at. rewrite map_app. cbn [map]. rewrite last_last.
+  replace (l + (length q - l)) with (length q) by lia. apply firstn_all.
+Qed.
+
+Lemma last_app_nonnil : forall {A} (l1 l2 : list A) d, l2 <> [] -> last (l1 ++ l2) d = last l2 d.
+Proof.
+  intros A l1 l2 d H. induction l1 as [|x l1 IH]; [reflexivity|].
+  cbn [app]. destruct (l1 ++ l2) eqn:E.
+  - apply app_eq_nil in E. destruct E; contradiction.
+  - exact IH.
+Qed.
+
+Theorem prop_C12_goto_spec : forall t p q, valid t p = true -> valid t q = true ->
+  prop_C12_goto t p q (spec_go_to p q) = true.
+Proof.
+  intros t p q Hp Hq. unfold prop_C12_goto. rewrite lpos_eq_refl. cbn [andb].
+  set (l := length (lcp p q)).
+  assert (Hlp : l <= length p) by apply lcp_length_l. assert (Hlq : l <= length q) by apply lcp_length_r.
+  assert (Epre : firstn l p = firstn l q) by (unfold l; rewrite lcp_firstn_l, lcp_firstn_r; reflexivity).
+  rewrite spec_go_to_path_from. fold l.
+  apply andb_true_iff. split.
+  - unfold simple_path. rewrite (path_from_valid t p q l _ Hp Hq).
+    rewrite (path_from_consecutive p q l _ Epre) by lia.
+    rewrite nodup_pos_NoDup by (apply path_from_NoDup; [reflexivity | lia]).
+    rewrite (path_from_hd p q l _ Epre). replace (l + (length p - l)) with (length p) by lia. rewrite firstn_all.
+    cbn [opt_eqb andb]. rewrite pos_eq_refl. cbn [andb].
+    unfold path_from. rewrite last_app_nonnil.
+    + rewrite last_prefixes_down by exact Hlq. apply pos_eq_refl.
+    + rewrite seq_S. unfold prefixes_at. rewrite map_app. intro H. apply app_eq_nil in H. destruct H; discriminate.
+  - apply Nat.eqb_eq. unfold path_from. rewrite app_length. unfold prefixes_at. rewrite !map_length, rev_length, !seq_length.
+    unfold dist. fold l. lia.
+Qed.
+
+(* the path as a Prop-level statement *)
+Lemma spec_go_to_NoDup : forall p q, NoDup (spec_go_to p q).
+Proof.
+  intros p q. rewrite spec_go_to_path_from. apply path_from_NoDup; [reflexivity|].
+  pose proof (lcp_length_l p q). lia.
+Qed.
+
+Lemma spec_go_to_length : forall p q, length (spec_go_to p q) = S (dist p q).
+Proof.
+  intros p q. unfold spec_go_to, up_chain, down_chain, dist. rewrite app_length, !map_length, rev_length, !seq_length.
+  pose proof (lcp_length_l p q). pose proof (lcp_length_r p q). lia.
+Qed.
+
+(* ============================================================================================== *)
+(* J. the clauses of C12 in the form stated in Props/C12.v                                           *)
+
+Lemma binary_is_leaf_spec : forall {A} (slots : list (option A)),
+  prop_C12_binary_leaf slots (binary_is_leaf slots) = true.
+Proof.
+  intros A slots. unfold prop_C12_binary_leaf, binary_is_leaf.
+  induction slots as [|[x|] l IH]; [reflexivity | reflexivity |].
+  cbn [filter is_some forallb andb]. exact IH.
+Qed.
+
+Lemma binary_is_leaf_iff : forall {A} (slots : list (option A)),
+  binary_is_leaf slots = true <-> forall c, In c slots -> c = None.
+Proof.
+  intros A slots. unfold binary_is_leaf. induction slots as [|[x|] l IH].
+  - split; [intros _ c [] | reflexivity].
+  - cbn [filter is_some length Nat.eqb]. split; [discriminate|]. intro H. specialize (H (Some x) (or_introl eq_refl)). discriminate.
+  - cbn [filter is_some]. rewrite IH. split.
+    + intros H c [E|Hc]; [congruence | apply H; exact Hc].
+    + intros H c Hc. apply H. right. exact Hc.
+Qed.
+
+Lemma clause_ancestors : forall t p, valid t p = true -> node_ancestors p = spec_ancestors t p.
+Proof. intros. symmetry. apply spec_ancestors_eq. assumption. Qed.
+
+Lemma clause_root : forall t p, valid t p = true ->
+  spec_root t p = Some (node_root p) /\ node_root p = [] /\ last (p :: node_ancestors p) [] = node_root p
+  /\ (node_is_root p = true <-> p = node_root p).
+Proof.
+  intros t p _. split; [apply spec_root_eq|]. split; [apply node_root_eq|]. split; [apply node_root_last|].
+  rewrite node_root_eq. apply node_is_root_iff.
+Qed.
+
+Lemma clause_node_path : forall t p, valid t p = true ->
+  node_path p = spec_node_path t p /\ node_path p = rev (p :: node_ancestors p).
+Proof. intros t p H. split; [symmetry; apply spec_node_path_eq; exact H | apply node_path_rev_ancestors]. Qed.
+
+Lemma clause_siblings : forall t p, valid t p = true -> node_siblings t p = spec_siblings t p.
+Proof. intros t p H. pose proof (model_qvals_spec t p H) as E. apply (f_equal q_sibs) in E. exact E. Qed.
+
+Lemma clause_left_right : forall t p, valid t p = true ->
+  node_left_sibling t p = spec_left_sibling t p /\ node_right_sibling t p = spec_right_sibling t p.
+Proof.
+  intros t p H. pose proof (model_qvals_spec t p H) as E. split;
+    [apply (f_equal q_left) in E | apply (f_equal q_right) in E]; exact E.
+Qed.
+
+Lemma clause_left_right_explicit : forall t par i, valid t (par ++ [i]) = true ->
+  node_left_sibling t (par ++ [i]) = match i with 0 => None | S j => Some (par ++ [j]) end
+  /\ node_right_sibling t (par ++ [i]) = if valid t (par ++ [S i]) then Some (par ++ [S i]) else None.
+Proof. intros t par i H. split; [apply node_left_sibling_eq | apply node_right_sibling_eq]; exact H. Qed.
+
+Lemma clause_descendants : forall t p s, subtree_at t p = Some s ->
+  node_descendants t p = spec_descendants t p /\ node_descendants t p = map (app p) (tl (positions s)).
+Proof. intros t p s H. split; [symmetry; eapply spec_descendants_eq; eauto | apply node_descendants_eq; exact H]. Qed.
+
+Lemma clause_leaves : forall t p, valid t p = true -> node_leaves t p = spec_leaves t p.
+Proof. intros t p H. destruct (valid_subtree t p H) as [s Hs]. symmetry. eapply spec_leaves_eq; eauto. Qed.
+
+Lemma clause_is_leaf : forall t p, valid t p = true -> (node_is_leaf t p = true <-> node_descendants t p = []).
+Proof.
+  intros t p H. destruct (valid_subtree t p H) as [s Hs].
+  rewrite (node_is_leaf_eq t p s Hs), (node_descendants_eq t p s Hs), <- (no_descendants_iff_leaf p s).
+  rewrite Nat.eqb_eq. split; [apply length_zero_iff_nil | intro E; rewrite E; reflexivity].
+Qed.
+
+Lemma clause_max_depth : forall t p,
+  node_max_depth t p = spec_max_depth t
+  /\ (forall q, In q (positions t) -> node_depth q <= node_max_depth t p)
+  /\ (exists q, In q (positions t) /\ node_depth q = node_max_depth t p).
+Proof.
+  intros t p. rewrite node_max_depth_eq. split; [reflexivity|]. unfold spec_max_depth. rewrite list_max_map.
+  split.
+  - intros q Hq. rewrite node_depth_eq. apply (fmax_ge (fun a => S (length a)) _ _ Hq).
+  - destruct (fmax_attained (fun a : pos => S (length a)) (positions t)) as [i [q [Hi Hq]]].
+    + rewrite positions_hd. discriminate.
+    + exists q. split; [eapply nth_error_In; eauto | rewrite node_depth_eq; exact Hq].
+Qed.
+
+Lemma clause_diameter : forall t p, valid t p = true -> node_diameter t p = spec_diameter t p.
+Proof. intros t p H. destruct (valid_subtree t p H) as [s Hs]. symmetry. eapply spec_diameter_eq; eauto. Qed.
+
+(* stated on the nodes of the whole tree that lie in the subtree of p *)
+Lemma clause_diameter_upper : forall t p a b, valid t p = true ->
+  In a (positions t) -> In b (positions t) -> is_prefix p a = true -> is_prefix p b = true ->
+  dist a b <= node_diameter t p.
+Proof.
+  intros t p a b H Ha Hb Hpa Hpb. destruct (valid_subtree t p H) as [s Hs].
+  assert (Ia : In a (spec_subtree t p)) by (apply filter_In; auto).
+  assert (Ib : In b (spec_subtree t p)) by (apply filter_In; auto).
+  rewrite (spec_subtree_eq t p s Hs) in Ia, Ib. apply in_map_iff in Ia, Ib.
+  destruct Ia as [a' [Ea Ia]]. destruct Ib as [b' [Eb Ib]]. subst a b. rewrite dist_app.
+  eapply node_diameter_upper; eauto.
+Qed.
+
+Lemma clause_diameter_attained : forall t p, valid t p = true ->
+  exists a b, In a (positions t) /\ In b (positions t) /\ is_prefix p a = true /\ is_prefix p b = true
+              /\ dist a b = node_diameter t p.
+Proof.
+  intros t p H. destruct (valid_subtree t p H) as [s Hs].
+  destruct (node_diameter_attained t p s Hs) as [a [b [Ha [Hb E]]]].
+  assert (Ia : In (p ++ a) (spec_subtree t p)) by (rewrite (spec_subtree_eq t p s Hs); apply in_map; exact Ha).
+  assert (Ib : In (p ++ b) (spec_subtree t p)) by (rewrite (spec_subtree_eq t p s Hs); apply in_map; exact Hb).
+  apply filter_In in Ia, Ib. exists (p ++ a), (p ++ b). rewrite dist_app. tauto.
+Qed.
+
+Lemma clause_go_to : forall t i p q, valid t p = true -> valid t q = true ->
+  exists path, node_go_to (i, p) (GNode (i, q)) = Ret path
+               /\ path = spec_go_to p q /\ prop_C12_goto t p q path = true
+               /\ NoDup path /\ length path = S (dist p q).
+Proof.
+  intros t i p q Hp Hq. exists (spec_go_to p q). split; [apply node_go_to_same_tree|]. split; [reflexivity|].
+  split; [apply prop_C12_goto_spec; assumption|]. split; [apply spec_go_to_NoDup | apply spec_go_to_length].
+Qed.
+
+(* ============================================================================================== *)
+(* K. uniqueness: every simple path from p to q is the one go_to returns                            *)
+
+Lemma is_prefix_firstn_eq : forall a q, is_prefix a q = true -> length a <= length q /\ a = firstn (length a) q.
+Proof.
+  induction a as [|i a IH]; intros q H; [split; [cbn; lia | reflexivity]|].
+  destruct q as [|j q]; [discriminate|]. cbn [is_prefix] in H. apply andb_true_iff in H. destruct H as [E H].
+  apply Nat.eqb_eq in E. subst j. destruct (IH q H) as [Hl Hf]. cbn [length firstn]. split; [lia|]. f_equal. exact Hf.
+Qed.
+
+Lemma is_prefix_lcp : forall a q, is_prefix a q = true -> lcp a q = a.
+Proof.
+  induction a as [|i a IH]; intros q H; [reflexivity|].
+  destruct q as [|j q]; [discriminate|]. cbn [is_prefix] in H. apply andb_true_iff in H. destruct H as [E H].
+  cbn [lcp]. rewrite E. rewrite (IH q H). reflexivity.
+Qed.
+
+Lemma is_parent_of_app : forall y p, is_parent_of y p = true -> exists i, p = y ++ [i].
+Proof.
+  intros y p H. unfold is_parent_of, proper_prefix in H. apply andb_true_iff in H. destruct H as [H Hl].
+  apply andb_true_iff in H. destruct H as [Hp _]. apply Nat.eqb_eq in Hl.
+  destruct (is_prefix_firstn_eq y p Hp) as [_ Hy].
+  pose proof (firstn_skipn (length y) p) as E. rewrite <- Hy in E.
+  assert (Hs : length (skipn (length y) p) = 1) by (rewrite skipn_length; lia).
+  destruct (skipn (length y) p) as [|i [|j r]]; try discriminate. exists i. symmetry. exact E.
+Qed.
+
+Lemma is_parent_of_child : forall y i, is_parent_of y (y ++ [i]) = true.
+Proof.
+  intros y i. unfold is_parent_of, proper_prefix. rewrite app_length. cbn [length].
+  replace (Nat.eqb (length y + 1) (S (length y))) with true by (symmetry; apply Nat.eqb_eq; lia).
+  replace (Nat.ltb (length y) (length y + 1)) with true by (symmetry; apply Nat.ltb_lt; lia).
+  rewrite !andb_true_r. induction y as [|c y IH]; [reflexivity|]. cbn [app is_prefix]. rewrite Nat.eqb_refl. exact IH.
+Qed.
+
+Lemma parent_unique : forall a b y, is_parent_of a y = true -> is_parent_of b y = true -> a = b.
+Proof.
+  intros a b y Ha Hb. apply is_parent_of_app in Ha, Hb. destruct Ha as [i Ea]. destruct Hb as [j Eb].
+  rewrite Ea in Eb. apply app_inj_tail in Eb. tauto.
+Qed.
+
+Fixpoint descending (l : list pos) : bool :=
+  match l with
+  | a :: ((b :: _) as r) => is_parent_of a b && descending r
+  | _ => true
+  end.
+
+Lemma descending_cons : forall x L, descending (x :: L) =
+  match L with [] => true | y :: _ => is_parent_of x y && descending L end.
+Proof. intros x [|y L]; reflexivity. Qed.
+
+(* after a step down, a simple path can only go further down *)
+Lemma down_stays_down : forall R x y, is_parent_of x y = true ->
+  consecutive_adjacent (x :: y :: R) = true -> NoDup (x :: y :: R) -> descending (x :: y :: R) = true.
+Proof.
+  induction R as [|z R IH]; intros x y Hxy Hc Hn.
+  - cbn. rewrite Hxy. reflexivity.
+  - rewrite descending_cons, Hxy. cbn [andb].
+    rewrite consecutive_cons in Hc. apply andb_true_iff in Hc. destruct Hc as [_ Hc].
+    pose proof Hc as Hc'. rewrite consecutive_cons in Hc'. apply andb_true_iff in Hc'. destruct Hc' as [Hadj _].
+    inversion Hn as [|? ? Hx Hn']; subst.
+    unfold adjacent in Hadj. apply orb_true_iff in Hadj. destruct Hadj as [Hd|Hu].
+    + apply IH; assumption.
+    + exfalso. apply Hx. rewrite (parent_unique x z y Hxy Hu). right. left. reflexivity.
+Qed.
+
+Lemma is_prefix_trans_parent : forall x y q, is_parent_of x y = true -> is_prefix y q = true -> is_prefix x q = true.
+Proof.
+  intros x y q Hxy Hy. apply is_parent_of_app in Hxy. destruct Hxy as [i E]. subst y.
+  revert q Hy. induction x as [|c x IH]; intros q Hy; [reflexivity|].
+  destruct q as [|j q]; [discriminate|]. cbn [app is_prefix] in *. apply andb_true_iff in Hy. destruct Hy as [E Hy].
+  rewrite E. cbn [andb]. apply IH. exact Hy.
+Qed.
+
+(* a descending chain is the list of prefixes of its end point, from its start point on *)
+Lemma descending_form : forall R x q, descending (x :: R) = true -> last (x :: R) [] = q ->
+  is_prefix x q = true /\ x :: R = prefixes_at q (seq (length x) (S (length q - length x))).
+Proof.
+  induction R as [|y R IH]; intros x q Hd Hl.
+  - cbn in Hl. subst q. split.
+    + rewrite <- (firstn_all x) at 1. rewrite <- (firstn_all x) at 3. apply is_prefix_firstn_firstn. lia.
+    + rewrite Nat.sub_diag. cbn [seq prefixes_at map]. rewrite firstn_all. reflexivity.
+  - rewrite descending_cons in Hd. apply andb_true_iff in Hd. destruct Hd as [Hxy Hd].
+    change (last (x :: y :: R) []) with (last (y :: R) []) in Hl.
+    destruct (IH y q Hd Hl) as [Hyq Hform].
+    pose proof (is_prefix_trans_parent x y q Hxy Hyq) as Hxq. split; [exact Hxq|].
+    destruct (is_prefix_firstn_eq x q Hxq) as [_ Hx]. destruct (is_prefix_firstn_eq y q Hyq) as [Hly _].
+    assert (Hlen : length y = S (length x)).
+    { unfold is_parent_of in Hxy. apply andb_true_iff in Hxy. destruct Hxy as [_ E]. apply Nat.eqb_eq in E. exact E. }
+    rewrite Hform, Hlen. replace (S (length q - length x)) with (S (S (length q - S (length x)))) by lia.
+    cbn [seq prefixes_at map]. f_equal. exact Hx.
+Qed.
+
+Lemma lcp_snoc : forall y i q, lcp (y ++ [i]) q = if is_prefix (y ++ [i]) q then y ++ [i] else lcp y q.
+Proof.
+  induction y as [|c y IH]; intros i q.
+  - destruct q as [|j q]; [reflexivity|]. cbn [app lcp is_prefix]. destruct (Nat.eqb i j); [|reflexivity].
+    destruct q; reflexivity.
+  - destruct q as [|j q]; [reflexivity|]. cbn [app lcp is_prefix]. destruct (Nat.eqb c j); [|reflexivity].
+    cbn [andb]. rewrite IH. destruct (is_prefix (y ++ [i]) q); reflexivity.
+Qed.
+
+Lemma firstn_snoc_le : forall (y : pos) i k, k <= length y -> firstn k (y ++ [i]) = firstn k y.
+Proof.
+  intros y i k H. rewrite firstn_app. replace (k - length y) with 0 by lia. cbn [firstn]. apply app_nil_r.
+Qed.
+
+Lemma NoDup_nodup_pos : forall l, nodup_pos l = true -> NoDup l.
+Proof.
+  induction l as [|a l IH]; intro H; [constructor|]. cbn [nodup_pos] in H. apply andb_true_iff in H.
+  destruct H as [H1 H2]. constructor; [|apply IH; exact H2].
+  intro Hin. apply negb_true_iff in H1. assert (E : existsb (pos_eq a) l = true).
+  { apply existsb_exists. exists a. split; [exact Hin | apply pos_eq_refl]. }
+  congruence.
+Qed.
+
+Lemma path_unique : forall L p q, hd_error L = Some p -> last L [] = q ->
+  consecutive_adjacent L = true -> NoDup L -> L = spec_go_to p q.
+Proof.
+  induction L as [|x R IH]; intros p q Hh Hl Hc Hn; [discriminate|].
+  cbn in Hh. inversion Hh; subst x. destruct R as [|y R].
+  - cbn in Hl. subst q. rewrite spec_go_to_self. reflexivity.
+  - pose proof Hc as Hc'. rewrite consecutive_cons in Hc'. apply andb_true_iff in Hc'. destruct Hc' as [Hadj Hc2].
+    unfold adjacent in Hadj. apply orb_true_iff in Hadj. destruct Hadj as [Hdown|Hup].
+    + (* first step goes down: the whole path does *)
+      pose proof (down_stays_down R p y Hdown Hc Hn) as Hd.
+      destruct (descending_form (y :: R) p q Hd Hl) as [Hpq Hform].
+      apply (eq_trans Hform). unfold spec_go_to, up_chain, down_chain. rewrite (is_prefix_lcp p q Hpq), Nat.sub_diag. reflexivity.
+    + (* first step goes up *)
+      change (last (p :: y :: R) []) with (last (y :: R) []) in Hl.
+      inversion Hn as [|? ? Hp Hn2]; subst.
+      pose proof (IH y (last (y :: R) []) eq_refl eq_refl Hc2 Hn2) as HR.
+      remember (last (y :: R) []) as q eqn:Eq.
+      unfold pos in *. rewrite HR in Hp. rewrite HR. clear HR Eq Hc Hc2 Hn Hn2 IH Hh.
+      apply is_parent_of_app in Hup. destruct Hup as [i E]. subst p.
+      destruct (is_prefix (y ++ [i]) q) eqn:Epre.
+      * (* then the path would come back through p *)
+        exfalso. apply Hp.
+        destruct (is_prefix_firstn_eq _ _ Epre) as [Hlen Hf]. rewrite app_length in Hlen, Hf. cbn [length] in Hlen, Hf.
+        assert (Hyq : is_prefix y q = true) by (apply (is_prefix_trans_parent y (y ++ [i]) q); [apply is_parent_of_child | exact Epre]).
+        unfold spec_go_to, up_chain, down_chain. rewrite (is_prefix_lcp y q Hyq). apply in_or_app. right.
+        apply in_map_iff. exists (length y + 1). split; [symmetry; exact Hf | apply in_seq; lia].
+      * unfold spec_go_to at 2. rewrite lcp_snoc, Epre. unfold spec_go_to.
+        set (l := length (lcp y q)). assert (Hl : l <= length y) by apply lcp_length_l.
+        unfold up_chain. rewrite app_length. cbn [length].
+        replace (length y + 1 - l) with (S (length y - l)) by lia.
+        fold (prefixes_at (y ++ [i]) (rev (seq (S l) (S (length y - l))))). rewrite up_chain_S.
+        replace (S l + (length y - l)) with (length (y ++ [i])) by (rewrite app_length; cbn [length]; lia).
+        rewrite firstn_all. cbn [app]. f_equal. f_equal.
+        unfold prefixes_at. apply map_ext_in. intros k Hk. apply in_rev, in_seq in Hk. symmetry. apply firstn_snoc_le. lia.
+Qed.
+
+Theorem simple_path_unique : forall t p q path, valid t p = true -> valid t q = true ->
+  simple_path t p q path = true -> path = spec_go_to p q.
+Proof.
+  intros t p q path _ _ H. unfold simple_path in H.
+  repeat (apply andb_true_iff in H; destruct H as [H ?]).
+  destruct path as [|x r]; [discriminate|]. cbn [hd_error opt_eqb] in *.
+  apply path_unique;
+    [ cbn [hd_error]; f_equal; apply pos_eq_true; assumption | apply pos_eq_true; assumption
+    | assumption | apply NoDup_nodup_pos; assumption ].
+Qed.
